@@ -95,6 +95,13 @@ Proof.
   split; [apply cleanup_not_before; auto|apply cleanup_exactly_once; auto].
 Qed.
 
+(* the executable form used on the implementation (number of Leave notifications observed) *)
+Theorem C06_cleanup_oracle_sound : forall s0 ws progs ls,
+  init_ok s0 ws ->
+  let s := run ls (mk_init s0 ws progs) in
+  no_thread_in_cleanup s = true -> check_cleanup (cleanups (gh s)) (status s) = true.
+Proof. intros s0 ws progs ls H s. apply cleanup_oracle_sound. apply reach_inv; auto. Qed.
+
 (* exactly one broadcast, and only after the Stopped store *)
 Theorem C06_one_broadcast : forall s0 ws progs ls,
   init_ok s0 ws ->
@@ -167,6 +174,16 @@ Example ex_between_check_and_register :
   /\ wpcs s = [WDone] /\ threads_done s = true /\ permit s = true /\ calls s = 1.
 Proof. vm_compute. repeat split; reflexivity. Qed.
 
+(* a waiter polled from inside its waker, i.e. in the middle of notify_waiters() on the exit
+   thread (before notify_one): it already sees the fully stopped state *)
+Example ex_eager :
+  run_scenario Running [W0] CStop true [OpStartEager 0; OpOpen 0; OpOpen 1; OpSettle]
+  = [mkObs 0 ORet (mkSnap Stopped false false false false true true true)]
+  /\ (let s := run ([LW 0; LW 0; LW 0; LW 0; LOpen 0; LOpen 1] ++ repeat_l [LA 0] 14 ++ [LW 0])%nat
+                   (scenario_init Running [W0] CStop true) in
+      wpcs s = [WDone] /\ permit s = false /\ threads_done s = false).
+Proof. vm_compute. repeat split; reflexivity. Qed.
+
 (* a waiter created after notify_waiters but before it reads the status: returns by the
    status check; a timed-out waiter is reported as such and the actor is untouched *)
 Example ex_timeout :
@@ -203,6 +220,7 @@ Print Assumptions C06_timeout_inert.
 Print Assumptions C06_timeout_reports.
 Print Assumptions C06_status_monotone.
 Print Assumptions C06_cleanup_once.
+Print Assumptions C06_cleanup_oracle_sound.
 Print Assumptions C06_one_broadcast.
 Print Assumptions C06_oracle_sound.
 Print Assumptions C06_oracle_sound_complete.
